@@ -165,11 +165,13 @@ func (tm *typesMap) newName(typs []types.Type) string {
 	funcName := tm.prefix
 	_, exists := tm.funcToTyps[funcName]
 	_, isreserved := tm.reserved[funcName]
+	// the name is cut between characters, not between bytes.
+	runes := []rune(name)
 	for exists || isreserved {
-		if i > len(name) {
+		if i > len(runes) {
 			funcName = tm.prefix + "_" + name + strconv.Itoa(i)
 		} else {
-			funcName = tm.prefix + "_" + name[:i]
+			funcName = tm.prefix + "_" + string(runes[:i])
 		}
 		i++
 		_, exists = tm.funcToTyps[funcName]
